@@ -1,10 +1,11 @@
 import TunnoxModel.Driver.Util
 import TunnoxModel.Spec.C17
+import TunnoxModel.Model.C17Slot
 /-!
 Line protocol for C17.
 
-case  := `p <proto> lim <L> pre <k> thr <n> (<inst> <nops> (a|r)*)* sch <m> <tid>*`
-proto := `conn` | `ctrl` | `tun` | `map` | `mapu` | `code` | `mapq`   (the instances of Model/C17; `mapu` = `map` with the limit taken from the user quota)
+case  := `p <proto> lim <L> pre <k> thr <n> (<inst> <nops> (a|r|o)*)*   (a = admission, r = release own, o = admission of another client) sch <m> <tid>*`
+proto := `conn` | `ctrl` | `ctrlx` (Register with gated stream Close) | `tun` | `map` | `mapu` | `code` | `mapq`   (the instances of Model/C17; `mapu` = `map` with the limit taken from the user quota)
 obs   := event* `|` item*
 event := `stp.<tid>.<n>` | `blk.<tid>.<n>` | `adm.<tid>.<item>.<victim or ->.<n>` | `ref.<tid>.<dirty>.<n>`
        | `rel.<tid>.<item>.<n>` | `nop.<tid>.<n>`
@@ -17,6 +18,7 @@ open Tunnox.C17 Gen
 def protoOf : String → Option Proto
   | "conn" => some protoConn
   | "ctrl" => some protoCtrl
+  | "ctrlx" => some protoCtrlX
   | "tun" => some protoTun
   | "map" => some protoMap
   | "mapu" => some protoMap
@@ -32,6 +34,7 @@ def renderEv : Ev → String
   | .ref t d n => s!"ref.{t}.{if d then 1 else 0}.{n}"
   | .rel t i n => s!"rel.{t}.{i}.{n}"
   | .nop t n => s!"nop.{t}.{n}"
+  | .evi t v n => s!"evi.{t}.{v}.{n}"
 
 def renderObs (tr : List Ev) (fin : List Nat) : String :=
   " ".intercalate (tr.map renderEv ++ ["|"] ++ fin.map toString)
@@ -42,6 +45,7 @@ def parseEv (tok : String) : Option Ev :=
   | ["blk", t, n] => do let t ← t.toNat?; let n ← n.toNat?; pure (.blk t n)
   | ["nop", t, n] => do let t ← t.toNat?; let n ← n.toNat?; pure (.nop t n)
   | ["rel", t, i, n] => do let t ← t.toNat?; let i ← i.toNat?; let n ← n.toNat?; pure (.rel t i n)
+  | ["evi", t, v, n] => do let t ← t.toNat?; let v ← v.toNat?; let n ← n.toNat?; pure (.evi t v n)
   | ["ref", t, d, n] => do
     let t ← t.toNat?; let n ← n.toNat?
     if d == "0" then pure (.ref t false n) else if d == "1" then pure (.ref t true n) else none
@@ -68,6 +72,7 @@ def parseOps : Nat → List String → Option (List Op × List String)
   | 0, ts => some ([], ts)
   | n + 1, "a" :: ts => do let (ops, rest) ← parseOps n ts; pure (.acquire :: ops, rest)
   | n + 1, "r" :: ts => do let (ops, rest) ← parseOps n ts; pure (.release :: ops, rest)
+  | n + 1, "o" :: ts => do let (ops, rest) ← parseOps n ts; pure (.other :: ops, rest)
   | _, _ => none
 
 def parseThreads : Nat → List String → Option (List (Nat × List Op) × List String)
@@ -120,8 +125,47 @@ def capsLine : String :=
   s!"maxconn={lim_session.DefaultMaxConnections} maxctrl={lim_session.DefaultMaxControlConnections} " ++
   s!"codes={lim_conncode.MaxActiveCodesPerClient} mappings={lim_conncode.MaxActiveMappingsPerClient}"
 
+/-! ### slot scenarios: `slot lim <L> sch <m> (s<i> | c<i>)*`, obs `acq.i.n ref.i.n reg.i.n sta.i.n fal.i.n cls.i.n ncl.i.n* |` -/
+
+def parseSch (tok : String) : Option C17Slot.Sch :=
+  match tok.toList with
+  | 's' :: r => (String.ofList r).toNat?.map C17Slot.Sch.step
+  | 'c' :: r => (String.ofList r).toNat?.map C17Slot.Sch.close
+  | _ => none
+
+def parseSlot (ts : List String) : Option (Nat × List C17Slot.Sch) :=
+  match ts with
+  | "slot" :: "lim" :: l :: "sch" :: m :: rest => do
+    let l ← l.toNat?; let m ← m.toNat?
+    let σ ← rest.mapM parseSch
+    if σ.length = m then pure (l, σ) else none
+  | _ => none
+
+def renderSlotEv : C17Slot.Ev → String
+  | .acq i n => s!"acq.{i}.{n}"
+  | .ref i n => s!"ref.{i}.{n}"
+  | .reg i n => s!"reg.{i}.{n}"
+  | .sta i n => s!"sta.{i}.{n}"
+  | .fal i n => s!"fal.{i}.{n}"
+  | .cls i n => s!"cls.{i}.{n}"
+  | .ncl i n => s!"ncl.{i}.{n}"
+
+def parseSlotEv (tok : String) : Option C17Slot.Ev :=
+  match tok.splitOn "." with
+  | [k, i, n] => do
+    let i ← i.toNat?; let n ← n.toNat?
+    match k with
+    | "acq" => pure (.acq i n) | "ref" => pure (.ref i n) | "reg" => pure (.reg i n) | "sta" => pure (.sta i n)
+    | "fal" => pure (.fal i n) | "cls" => pure (.cls i n) | "ncl" => pure (.ncl i n) | _ => none
+  | _ => none
+
 def runModel (ts : List String) : String :=
   if ts = ["caps"] then capsLine else
+  if ts.head? = some "slot" then
+    match parseSlot ts with
+    | none => "bad-case"
+    | some (l, σ) => " ".intercalate ((C17Slot.run true l C17Slot.init σ).trace.map renderSlotEv ++ ["|"])
+  else
   match parseCase ts with
   | none => "bad-case"
   | some c =>
@@ -137,6 +181,10 @@ def runHolds (caseToks obsToks : List String) : String :=
              lim_sessioncfg.MaxControlConnections == lim_session.DefaultMaxControlConnections)
   else
   match caseToks with
+  | "slot" :: _ =>
+    match parseSlot caseToks, (obsToks.takeWhile (· != "|")).mapM parseSlotEv with
+    | some (l, _), some evs => boolStr (obsToks.contains "|" && C17Slot.holds l evs)
+    | _, _ => "false"
   | "free" :: _ =>
     match parseFree caseToks, parseFreeObs obsToks with
     | some c, some (a, r, m, f, d) => boolStr (holdsFree c.proto.zeroUnl c.limit c.pre c.n a r m f d)
